@@ -12,7 +12,7 @@
     siblings; [line_ok] says a text line is: one unit per flag ("│  " for true,
     "   " for false), then "├─ " (not last) or "╰─ " (last) — nothing for a
     top-level line —, then the name, then padding and the cells. *)
-From DivanV Require Import Base.Res Model.Painter Model.DriverPaint Model.Parse Model.PaintOk
+From DivanV Require Import Base.Res Generated.Consts2 Model.Painter Model.DriverPaint Model.Parse Model.PaintOk
   Proofs.Painter Proofs.PaintDriver Proofs.PaintPrefix Proofs.PaintOrder
   Proofs.PaintParse Proofs.PaintParse2 Proofs.PaintCalls Proofs.PaintOk.
 
@@ -119,3 +119,15 @@ Theorem C20_model_sb : forall a t,
   exists p out, paint a t = Ok (p, out) /\ paint_sb a t out = true.
 Proof. exact model_sb. Qed.
 Print Assumptions C20_model_sb.
+
+(** Obligations on the generated constants (tools/extract_consts2.py): the
+    glyph strings and prefix units typed into the model are the ones in
+    tree_painter.rs (all branch/corner sites agree), and the common column width
+    cap is the code's. *)
+Theorem C20_glyph_consts :
+  glyph_branch = g_branch /\ glyph_corner = g_corner /\
+  glyph_bar_unit = u_bar /\ glyph_space_unit = u_blank /\
+  glyph_sites_agree = true /\
+  Consts2.max_common_column_width = N.of_nat DriverPaint.max_common_column_width.
+Proof. repeat split; reflexivity. Qed.
+Print Assumptions C20_glyph_consts.
